@@ -470,59 +470,6 @@ def first_divergence(m, r):
     return min(len(a), len(b)), None, None
 
 
-def run(ctx):
-    rng = random.Random(ctx.seed * 7919 + 15)
-    K = consts()
-    ctx.prove()
-    mexe = core.build_extracted("c15model", "Extract/Extract_C15.v", "c15_driver.ml")
-    cexe = {0: core.build_harness("c15_window", ["c15_window.c"], variant="o1", extra_flags=["-w"]),
-            1: core.build_harness("c15_window", ["c15_window.c"], variant="ovf", extra_flags=["-w"])}
-    scale = 1 if ctx.quick else 6
-    problems = []   # (kind, freq, detail)
-
-    # ---- tie (1a): function level
-    cases = gen_function_cases(rng, K, scale)
-    for freq in (0, 1):
-        mism = diff_runs(ctx, "functions", freq, cases, cexe[freq], mexe)
-        for opc, a, sig in cases:
-            ctx.count(("f", freq) + tuple(sig))
-        ctx.cov["traces_validated_against_impl"] += len(cases)
-        for i, ln, m, rr in mism[:5]:
-            problems.append(("function-tie", freq, dict(case=list(ln[:2]) if ln else None, model=m, real=rr)))
-    for opc, a, sig in cases[:3] + [c for c in cases if c[0] == 12][:2] + [c for c in cases if c[0] == 15][:1]:
-        ctx.sample(dict(opcode=opc, args=a[:24], signature=list(map(str, sig))))
-
-    # ---- tie (1b): histories on the fake match state
-    hist_specs = [("frames", 300 if ctx.quick else 1500, 6 if ctx.quick else 20), ("chunks", 100000 if ctx.quick else 400000, 1 if ctx.quick else 3)]
-    for kind, steps, reps in hist_specs:
-        for rep in range(reps):
-            for freq in (0, 1):
-                lines = gen_history(rng, K, freq, kind, steps if kind == "chunks" else rng.choice([steps // 10, steps]))
-                mism = diff_runs(ctx, "history-" + kind, freq, lines, cexe[freq], mexe)
-                ctx.cov["traces_validated_against_impl"] += 1
-                for opc, a, sig in lines:
-                    ctx.count(("h", freq, kind) + tuple(sig))
-                for i, ln, m, rr in mism[:1]:
-                    problems.append(("history-tie", freq, dict(kind=kind, step=i, prefix=[[l[0]] + l[1][:40] for l in lines[max(0, i - 3):i + 1]] if i >= 0 else None,
-                                                             model=m, real=rr, nlines=len(lines))))
-                if rep == 0 and freq == 0:
-                    total = sum(sum(a[1:]) for opc, a, _ in lines if opc in (103, 104))
-                    ctx.notes.setdefault("history_bytes_simulated", {})[kind] = total
-                    ctx.sample(dict(history=kind, first_ops=[[l[0]] + l[1][:12] for l in lines[1:5]], ops=len(lines), bytes_simulated=total))
-
-    ctx.cov["rule"] = ("function-level cases are aimed at every comparison of the modelled functions (index thresholds +-2, U32 wrap points, "
-                       "power-of-two cycle boundaries, reducer thresholds, table marks); a case's signature = (opcode, build knob, which branch "
-                       "conditions held); histories are random lives of one match state (begin / dictionary / attach / chunks of blocks / finder writes), "
-                       "signature = (op kind, contiguity, flags). distinct_nontrivial counts distinct signatures.")
-
-    def search(broken):
-        return []
-
-    ctx.proof_verdict(search)
-    for kind, freq, det in problems[:6]:
-        ctx.violation(dict(kind=kind, frequently=freq, detail=det), what="%s: real code and model disagree (build knob frequently=%d)" % (kind, freq), no_input=True)
-
-
 # ------------------------------------------------------------------------------------------------
 # tie (2): real contexts (harness/c15_ctx.c), window predicted by the model, direct oracles rt / fresh
 
@@ -834,3 +781,247 @@ def run_scenario(exe, arena_mb, cmds, timeout=900):
     rc, out, err = core.sh([exe, str(arena_mb)], inp=("\n".join(cmds) + "\n").encode(), timeout=timeout)
     lines = [l for l in out.split("\n") if l]
     return rc, lines, err
+
+
+# ------------------------------------------------------------------------------------------------
+# the check
+
+def shrink_scenario(exe, arena_mb, cmds, K, budget=25):
+    """Best-effort reduction of a failing real-context scenario: cut after the first failing frame, then drop
+    earlier frame commands one at a time while the failure persists."""
+    def failing(c):
+        rc, lines, err = run_scenario(exe, arena_mb, c, timeout=600)
+        nf, fails = oracle_failures(lines, K)
+        return (rc != 0) or bool(fails), lines, (fails[0][1] if fails else ("rc=%d %s" % (rc, err[-200:])))
+    bad, lines, why = failing(cmds)
+    if not bad:
+        return cmds, None
+    # cut: find how many frame commands were executed up to the failure
+    frames_seen = sum(1 for l in lines if l.startswith("F ") or l.startswith("G "))
+    cut, k = [], 0
+    for c in cmds:
+        cut.append(c)
+        if c.split()[0] in ("oneshot", "stream", "bufferless", "bigstream"):
+            k += 1
+            if k >= max(frames_seen, 1):
+                break
+    if failing(cut)[0]:
+        cmds = cut
+    n = 0
+    i = 0
+    while i < len(cmds) - 1 and n < budget:
+        if cmds[i].split()[0] in ("oneshot", "stream", "bufferless"):
+            trial = cmds[:i] + cmds[i + 1:]
+            n += 1
+            if failing(trial)[0]:
+                cmds = trial
+                continue
+        i += 1
+    return cmds, failing(cmds)[2]
+
+
+def ctx_job(exe, mexe, freq, K, seed, arena_mb, quick, extra_cmds=None):
+    rng = random.Random(seed)
+    sc = Scenario(rng, K, arena_mb, quick).build()
+    if extra_cmds:
+        for c in extra_cmds:
+            sc.emit(c)
+    t0 = time.time()
+    rc, lines, err = run_scenario(exe, arena_mb, sc.cmds, timeout=1500)
+    res = dict(freq=freq, seed=seed, rc=rc, err=err[-300:], cmds=sc.cmds, nlines=len(lines), wall=time.time() - t0)
+    nf, fails = oracle_failures(lines, K)
+    res["frames"] = nf
+    res["fails"] = fails
+    res["big"] = [parse_ctx_line(l) for l in lines if l.startswith("G ")]
+    res["max_nbovf"] = max([ints(parse_ctx_line(l)["W"])[5] for l in lines if " W=" in l] or [0])
+    res["max_idx"] = max([int(parse_ctx_line(l)["idx"]) for l in lines if " idx=" in l] or [0])
+    model, expect = predict_frames(sc, lines, freq, K)
+    rc2, mout, e2 = run_lines(mexe, [str(freq)], model, 900)
+    if rc2 != 0 or len(mout) != len(model):
+        res["pred_bad"] = [("model run", "rc", rc2, e2[-200:])]
+    else:
+        res["pred_bad"] = compare_prediction(mout, expect)
+    res["predicted"] = len(expect)
+    res["sigs"] = [tuple(l[2]) for l in model] + [("ctx", parse_ctx_line(l).get("api"), parse_ctx_line(l).get("ap", "").split(",")[3:6] and tuple(parse_ctx_line(l).get("ap", "0,0,0,0,0,0").split(",")[3:6])) for l in lines if l[:2] in ("F ", "C ")]
+    res["sample"] = [l[:260] for l in lines if l.startswith("F ")][:2]
+    return res
+
+
+def tie_job(name, freq, lines, cexe, mexe):
+    mism = diff_runs(None, name, freq, lines, cexe, mexe, timeout=900)
+    return dict(name=name, freq=freq, lines=lines, mism=mism)
+
+
+def run(ctx):
+    from concurrent.futures import ThreadPoolExecutor
+    rng = random.Random(ctx.seed * 7919 + 15)
+    K = consts()
+    if ctx.replay_file:
+        return replay(ctx, K)
+    mexe = core.build_extracted("c15model", "Extract/Extract_C15.v", "c15_driver.ml")
+    cexe = {0: core.build_harness("c15_window", ["c15_window.c"], variant="o1", extra_flags=["-w"]),
+            1: core.build_harness("c15_window", ["c15_window.c"], variant="ovf", extra_flags=["-w"])}
+    xexe = {0: core.build_harness("c15_ctx", ["c15_ctx.c"], variant="o1", extra_flags=["-w"]),
+            1: core.build_harness("c15_ctx", ["c15_ctx.c"], variant="ovf", extra_flags=["-w"])}
+    scale = 1 if ctx.quick else 6
+    arena_mb = 48 if ctx.quick else 128
+
+    pool = ThreadPoolExecutor(max_workers=max(4, core.NCPU - 2))
+    futs = []
+    # ---- tie (1a): function level
+    cases = gen_function_cases(rng, K, scale)
+    for freq in (0, 1):
+        futs.append(("tie", pool.submit(tie_job, "functions", freq, cases, cexe[freq], mexe)))
+    # ---- tie (1b): histories on the fake match state
+    n_frames = 8 if ctx.quick else 30
+    for rep in range(n_frames):
+        for freq in (0, 1):
+            lines = gen_history(rng, K, freq, "frames", rng.choice([40, 300] if ctx.quick else [100, 1500]))
+            futs.append(("tie", pool.submit(tie_job, "history-frames", freq, lines, cexe[freq], mexe)))
+    n_chunk_hist, chunk_steps = (4, 25000) if ctx.quick else (12, 60000)   # quick: 2 builds x 4 x 25000 = 2*10^5 chunk steps
+    for rep in range(n_chunk_hist):
+        for freq in (0, 1):
+            lines = gen_history(rng, K, freq, "chunks", chunk_steps)
+            futs.append(("tie", pool.submit(tie_job, "history-chunks", freq, lines, cexe[freq], mexe)))
+    # ---- tie (2): real contexts
+    n_sc = 2 if ctx.quick else 6
+    for k in range(n_sc):
+        for freq in (0, 1):
+            extra = None
+            if k == 0:
+                # one long stream through the reused context: the frequent-correction build must correct (nbovf > 0)
+                extra = ["resetparams", "param %d 1" % P_LEVEL, "param %d %d" % (P_WLOG, rng.choice([17, 18, 19, 20])), "nodict",
+                         "bigstream %d %d" % ((96 << 20) if ctx.quick else (1 << 30), rng.randint(1, 1 << 30)), "oneshot 7 5000"]
+            futs.append(("ctx", pool.submit(ctx_job, xexe[freq], mexe, freq, K, rng.randint(1, 1 << 30), arena_mb, ctx.quick, extra)))
+    if not ctx.quick:
+        # the real thing: > 4 GiB through ONE context of the DEFAULT build, generated and decoded on the fly;
+        # then the same context compresses ordinary frames again
+        for wl in (20,):
+            extra = ["resetparams", "param %d 1" % P_LEVEL, "param %d %d" % (P_WLOG, wl), "nodict",
+                     "bigstream %d %d" % (4608 << 20, rng.randint(1, 1 << 30)), "oneshot 7 5000", "oneshot 100 100000"]
+            futs.append(("ctx", pool.submit(ctx_job, xexe[0], mexe, 0, K, rng.randint(1, 1 << 30), arena_mb, True, extra)))
+
+    # the proofs are checked while the ties run
+    ctx.prove()
+
+    problems = []     # (kind, freq, detail, concrete_replay or None)
+    hist_bytes = {}
+    for kind, f in futs:
+        r = f.result()
+        if kind == "tie":
+            lines = r["lines"]
+            for opc, a, sig in lines:
+                ctx.count((r["name"], r["freq"]) + tuple(sig))
+            ctx.cov["traces_validated_against_impl"] += len(lines) if r["name"] == "functions" else 1
+            if r["name"].startswith("history"):
+                hist_bytes[r["name"]] = hist_bytes.get(r["name"], 0) + sum(sum(a[1:]) for opc, a, _ in lines if opc in (103, 104))
+            for i, ln, m, rr in r["mism"][:2]:
+                det = dict(tie=r["name"], frequently=r["freq"], model=m, real=rr)
+                if ln is not None:
+                    k, mv, rv = first_divergence(m, rr)
+                    det.update(opcode=ln[0], args=ln[1][:60], first_differing_field=k, model_value=mv, real_value=rv)
+                    if r["name"].startswith("history"):
+                        det["history_prefix"] = [[l[0]] + l[1] for l in lines[:i + 1]][-400:]
+                        det["step"] = i
+                concrete = None
+                # the real side saw a wrapped index (its observer printed 0): that is a failing input by itself
+                if ln is not None and r["name"].startswith("history") and rr.split()[-1:] == ["0"]:
+                    concrete = "a U32 index of the real window functions wrapped (exactness observer = 0) at step %d of this history" % i
+                problems.append(("%s tie" % r["name"], r["freq"], det, concrete))
+        else:
+            ctx.cov["traces_validated_against_impl"] += r["predicted"]
+            for sg in r["sigs"]:
+                ctx.count(("ctx", r["freq"]) + tuple(str(x) for x in sg))
+            ctx.notes.setdefault("real_context_runs", []).append(dict(frequently=r["freq"], frames=r["frames"], predicted_transitions=r["predicted"],
+                                                                      max_nbOverflowCorrections=r["max_nbovf"], max_index=r["max_idx"], wall_s=round(r["wall"], 1),
+                                                                      bigstream=[dict(size=int(g["size"]), csize=int(g["csize"]), rt=int(g["rt"]), nbovf=int(g["nbovf"]), maxidx=int(g["maxidx"])) for g in r["big"]]))
+            for s_ in r["sample"][:1]:
+                ctx.sample(dict(real_context_frame=s_))
+            if r["rc"] != 0:
+                problems.append(("real-context run crashed", r["freq"], dict(rc=r["rc"], err=r["err"], cmds=r["cmds"][-60:]),
+                                 "the harness driving the real context died (rc=%d)" % r["rc"]))
+            for i, why in r["fails"][:2]:
+                problems.append(("real-context oracle", r["freq"], dict(arena_mb=arena_mb, cmds=r["cmds"], failing_line=i, why=why), why))
+            for b in r["pred_bad"][:2]:
+                problems.append(("real-context window prediction", r["freq"], dict(arena_mb=arena_mb, cmds=r["cmds"], mismatch=[str(x) for x in b]), None))
+            for g in r["big"]:
+                if r["freq"] == 1 and int(g["nbovf"]) == 0:
+                    problems.append(("frequent-correction build never corrected", 1, dict(line=g), None))
+                if r["freq"] == 0 and int(g["size"]) > K["ZSTD_CURRENT_MAX"] + (1 << 27) and int(g["nbovf"]) == 0:
+                    problems.append(("default build never corrected on a > 3.5 GiB stream", 0, dict(line=g), None))
+    pool.shutdown()
+    ctx.notes["history_bytes_simulated"] = hist_bytes
+    for opc, a, sig in cases[:2] + [c for c in cases if c[0] == 12][:2] + [c for c in cases if c[0] == 15][:1] + [c for c in cases if c[0] == 17][:1]:
+        ctx.sample(dict(opcode=opc, args=a[:28], signature=list(map(str, sig))))
+    ctx.cov["rule"] = ("(1a) function-level cases aimed at every comparison of the modelled functions (index thresholds +-2, U32 wrap points, power-of-two "
+                       "cycle boundaries, reducer thresholds, unsorted marks), both builds; (1b) random lives of a match state on unreadable memory: begin / "
+                       "dictionary / attach / copy / chunks of blocks / finder writes, and chunk machines with chunks up to ZSTD_CHUNKSIZE_MAX; (2) real contexts: "
+                       "one context reused over ~50 frames per scenario (all 9 strategies, row finder, LDM, prefixes, CDict attach/copy/load, parameter changes, "
+                       "time-warped indices near the reset threshold and ZSTD_CURRENT_MAX), every transition predicted by the model, every frame decoded and "
+                       "compared with a fresh context. A case's signature = (tie, build knob, opcode / op kind, which branch conditions held); "
+                       "distinct_nontrivial = number of distinct signatures.")
+
+    # ---- verdict
+    def search(broken):
+        # direct oracle on the implementation: real contexts over fresh scenarios (round trip, fresh-context equality, index range)
+        found = []
+        for freq in (0, 1):
+            r = ctx_job(xexe[freq], mexe, freq, K, rng.randint(1, 1 << 30), arena_mb, True)
+            for i, why in r["fails"][:1]:
+                cmds, why2 = shrink_scenario(xexe[freq], arena_mb, r["cmds"], K)
+                found.append((dict(kind="real-context oracle", frequently=freq, arena_mb=arena_mb, cmds=cmds, why=why2 or why), why2 or why))
+        return found
+
+    ctx.proof_verdict(search)
+    concrete_seen = False
+    for kind, freq, det, concrete in problems[:8]:
+        if concrete and kind == "real-context oracle":
+            cmds, why2 = shrink_scenario(xexe[freq], det["arena_mb"], det["cmds"], K)
+            det = dict(det, cmds=cmds, why=why2 or det["why"])
+        if concrete:
+            concrete_seen = True
+            ctx.violation(dict(kind=kind, frequently=freq, detail=det), what="%s (build knob frequently=%d): %s" % (kind, freq, concrete))
+    if not concrete_seen and problems:
+        # a tie broke but no property-level failure was observed yet: look for one on the implementation
+        found = search(None)
+        if found:
+            for rp, what in found[:2]:
+                ctx.violation(rp, what="after %s broke: %s" % (problems[0][0], what))
+        for kind, freq, det, concrete in problems[:4]:
+            ctx.violation(dict(kind=kind, frequently=freq, detail=det),
+                          what="%s: real code and model disagree (build knob frequently=%d)" % (kind, freq), no_input=not found)
+
+
+def replay(ctx, K):
+    """Re-execute a recorded failing case (best effort)."""
+    obj = json.load(open(ctx.replay_file))
+    rp = obj.get("replay", {})
+    det = rp.get("detail", rp)
+    freq = int(rp.get("frequently", 0))
+    var = "ovf" if freq else "o1"
+    mexe = core.build_extracted("c15model", "Extract/Extract_C15.v", "c15_driver.ml")
+    ctx.cov["rule"] = "replay of " + os.path.basename(ctx.replay_file)
+    if "cmds" in det:
+        exe = core.build_harness("c15_ctx", ["c15_ctx.c"], variant=var, extra_flags=["-w"])
+        rc, lines, err = run_scenario(exe, int(det.get("arena_mb", 48)), det["cmds"])
+        nf, fails = oracle_failures(lines, K)
+        ctx.count(("replay", "ctx"), n=max(nf, 1))
+        ctx.sample(dict(replayed_scenario_lines=len(lines), failures=[f[1][:200] for f in fails[:3]]))
+        if rc != 0 or fails:
+            ctx.violation(rp, what="replay: " + (fails[0][1] if fails else "harness rc=%d" % rc))
+        return
+    lines = None
+    if "history_prefix" in det:
+        lines = [(100, [], ())] + [(l[0], l[1:], ()) for l in det["history_prefix"] if l[0] != 100]
+    elif "opcode" in det:
+        lines = [(det["opcode"], det["args"], ())]
+    if lines:
+        exe = core.build_harness("c15_window", ["c15_window.c"], variant=var, extra_flags=["-w"])
+        mism = diff_runs(None, "replay", freq, lines, exe, mexe)
+        ctx.count(("replay", "tie"), n=len(lines))
+        ctx.sample(dict(replayed_lines=len(lines), mismatches=len(mism)))
+        if mism:
+            ctx.violation(rp, what="replay: real code and model still disagree: model=%s real=%s" % (mism[0][2][:120], mism[0][3][:120]), no_input=True)
+        return
+    ctx.prove()
+    ctx.proof_verdict(None)
